@@ -506,6 +506,8 @@ def do_enum(eolib, job):
         Q = 7
     before = [[m.name, int(m)] for m in E]
     mm_before = sorted(E.__members__)
+    declared_values = {int(m) for m in E.__members__.values()}
+    table_before = sorted(int(k) for k in getattr(E, '_value2member_map_', {}))
     obs = []
     problems = []
     for n in job['calls']:
@@ -524,6 +526,14 @@ def do_enum(eolib, job):
             problems.append(f"E({n}).value is {v.value!r}")
         if [[m.name, int(m)] for m in E] != before or sorted(E.__members__) != mm_before:
             problems.append(f"constructing E({n}) changed the declared members")
+        # ... nor what the enum answers about that integer afterwards
+        try:
+            if (n in E) != (n in declared_values):
+                problems.append(f"after E({n}) was constructed, `{n} in E` is {n in E} although {n} is {'declared' if n in declared_values else 'not declared'}")
+        except TypeError:
+            pass
+        if sorted(int(k) for k in getattr(E, '_value2member_map_', {})) != table_before:
+            problems.append(f"constructing E({n}) changed the enum's value table (_value2member_map_)")
         if idx < 0 and (type(v) is not E or v.name != f"Unrecognized({n})"):
             problems.append(f"E({n}) is named {v.name!r} / typed {type(v).__name__}")
         # every integer is accepted: int subclasses, members (declared or not) of another protocol enum, bools
